@@ -95,4 +95,21 @@ PROPS = {
         "runs": [{"bin": "mon_ff"}],
         "assumptions": BASE_ASSUME,
     },
+    "C16": {
+        "runs": [{"bin": "mon_const"}],
+        "assumptions": BASE_ASSUME + [
+            "primality is Miller-Rabin (64 prime bases); group orders of large curves are checked through r*G = 0, the Hasse interval and COFACTOR*r annihilating random curve points, not by point counting",
+            "constants are read through the public traits; base-prime-field coordinates are decoded with into_bigint (C01), prime-field constants from raw Montgomery limbs by the oracle; the library's sqrt is used only to find random curve points whose membership the oracle re-checks",
+            "conventions read from the code/doc comments (Frobenius exponent j(p^i-1)/k, GLV phi(x,y)=(beta x,y) with row lattice and det=+r, TE<->Montgomery incl. the bls12_377 rescaling, BW6 Housni-Guillevic parameterisation, MNT big-endian loop digits) are stated in mon_const/src/*.rs and in the evidence notes",
+            "private constants (P_POWER_ENDOMORPHISM_* in bls12_381/bls12_377/bn254 g2) are out of reach of this property and exercised by C12",
+        ],
+    },
+    "C20": {
+        "runs": [{"bin": "mon_const"}],
+        "assumptions": BASE_ASSUME + [
+            "the literal grid (mon_const/src/literals_gen.rs) is generated once by mon_const/gen/gen_literals.py; expected values next to each literal are Python integers; only syntax accepted by ff-macros/src/utils.rs and values below 2^(64N) are generated (anything else is a documented compile error)",
+            "decimal/hex literals and small octal/binary literals are const items; every octal/binary literal is also expanded in a run-time context (text->limbs still at compile time) so that a mis-read radix is a violation instead of a build failure",
+            "shipped fields: derive products are recomputed from the decoded modulus and generator (attribute strings of /repo are not embedded)",
+        ],
+    },
 }
